@@ -1206,6 +1206,100 @@ def rule_op_table(rep, repo):
                  want_suffix), loc=loc)
 
 
+def rule_io_layers(rep, repo):
+  """R13: the writer and the reader of the model's input / output layer
+  lists agree on what the entries are.  The head of
+  generate_layer_data_type_map (everything before its traversal loop) is
+  interpreted on a two-layer graph; the lists it builds are then handed to
+  the statements of energy_estimate that decide is_input_layer /
+  is_output_layer, executed for the input and for the output layer: the
+  input layer must be recognised as input (and not as output) and vice
+  versa - otherwise the read / write placement of the model's inputs and
+  outputs (rd_wr_on_io) never applies."""
+  gm = repo.module("qkeras.qtools.generate_layer_data_type_map")
+  qe = repo.module(QE)
+  gfn = gm.functions.get("generate_layer_data_type_map")
+  efn = qe.functions.get("energy_estimate")
+  if gfn is None or efn is None:
+    raise AnalysisError("anchor-missing generate_layer_data_type_map / "
+                        "energy_estimate")
+  unit = "%s::energy_estimate" % qe.relpath
+  rep.unit(unit)
+  loc = qe.loc(efn)
+  l_in = Mock("l_in", {"name": "dense_in",
+                       "__class__": Mock("class", {"__name__": "QDense"})})
+  l_out = Mock("l_out", {"name": "dense_out",
+                         "__class__": Mock("class", {"__name__": "QDense"})})
+  nodes = {1: {"layer": [l_in], "type": ["QDense"]},
+           2: {"layer": [l_out], "type": ["QDense"]},
+           -1: {"layer": [None], "type": ["Source"]},
+           -2: {"layer": [None], "type": ["Sink"]}}
+  graph = Mock("graph", {
+      "nodes": nodes,
+      "predecessors": lambda pe, a, k: [2] if a[0] == -2 else [],
+      "successors": lambda pe, a, k: [1] if a[0] == -1 else []})
+  pe = PE(repo)
+  pe.opaque_ext = True
+  frame = {"graph": graph, "source_quantizer_list": [], "is_inference": False,
+           "debug": False}
+  for p_, d_ in function_defaults(gfn).items():
+    frame.setdefault(p_, d_)
+  for st in gfn.body:
+    if isinstance(st, ast.For) and "topological_sort" in ast.unparse(
+        st.iter):
+      break
+    try:
+      pe.exec_stmt(st, [frame], gm)
+    except (PyRaise, Unsupported) as e:
+      raise AnalysisError("unsupported-construct head of "
+                          "generate_layer_data_type_map: %s" % e)
+  ins, outs = frame.get("input_layers"), frame.get("output_layers")
+  if not isinstance(ins, list) or not isinstance(outs, list):
+    raise AnalysisError("anchor-missing input_layers / output_layers in "
+                        "generate_layer_data_type_map")
+  tests = [st for st in ast.walk(efn) if isinstance(st, ast.Assign) and any(
+      isinstance(t, ast.Name) and t.id in ("is_input_layer",
+                                           "is_output_layer")
+      for t in st.targets)]
+  if len(tests) < 2:
+    raise AnalysisError("anchor-missing is_input_layer / is_output_layer in "
+                        "energy_estimate")
+  for lyr, want in ((l_in, (True, False)), (l_out, (False, True))):
+    fr2 = {"layer": lyr, "input_layers": ins, "output_layers": outs,
+           "layer_map": {"input_layers": ins, "output_layers": outs}}
+    pe2 = PE(repo)
+    pe2.opaque_ext = True
+    try:
+      for st in tests:
+        pe2.exec_stmt(st, [fr2], qe)
+      got = (bool(fr2.get("is_input_layer")),
+             bool(fr2.get("is_output_layer")))
+    except (PyRaise, Unsupported) as e:
+      got = "raises %s" % e
+    rep.check(got == want, "R13", unit, "io-layer-not-recognised",
+              "the data-type map lists the input layers as %r and the "
+              "output layers as %r; for layer %s energy_estimate decides "
+              "(is_input_layer, is_output_layer) = %s, expected %s" % (
+                  [getattr(x, "name", x) if not isinstance(x, str) else
+                   "name %r" % x for x in ins],
+                  [getattr(x, "name", x) if not isinstance(x, str) else
+                   "name %r" % x for x in outs],
+                  lyr.attrs["name"], got, want), loc=loc,
+              instance=lyr.attrs["name"])
+
+
+def function_defaults(fn):
+  out = {}
+  a = fn.args
+  pos = list(a.posonlyargs) + list(a.args)
+  for p_, d_ in zip(pos[len(pos) - len(a.defaults):], a.defaults):
+    try:
+      out[p_.arg] = ast.literal_eval(d_)
+    except (ValueError, SyntaxError):
+      pass
+  return out
+
+
 def rule_qtools_wiring(rep, repo):
   """R10: QTools.__init__ and QTools.pe interpreted with the sub-systems as
   recording stand-ins: the selected process is applied to the configuration
@@ -1391,6 +1485,8 @@ def run(rep, repo, tier):
   rep.require_instances("R10", 6)
   rule_count_input(rep, repo)
   rep.require_instances("R11", 20)
+  rule_io_layers(rep, repo)
+  rep.require_instances("R13", 2)
   rule_op_table(rep, repo)
   rep.require_instances("R12", 16)
   rep.require_instances("R9", 15)
